@@ -982,8 +982,10 @@ class C08(Prop):
             for k in range(1, len(steps)):
                 items.append((doc, steps[:k], steps[k:], []))
         corpus = load_corpus(self.id, ctx.root) if seed_offset == 0 else []
-        whole = [Case('w%d' % i, gens.render_path(p + q), [doc], f, []) for i, (doc, p, q, f) in enumerate(items)]
-        pre = [Case('p%d' % i, gens.render_path(p), [doc], f, []) for i, (doc, p, q, f) in enumerate(items)]
+        # now and then the path is written without its leading `$` (a bracket or a bare name may start a path)
+        nodollar = [r.random() < 0.12 for _ in items]
+        whole = [Case('w%d' % i, gens.render_path(p + q, None, dollar=not nodollar[i]), [doc], f, []) for i, (doc, p, q, f) in enumerate(items)]
+        pre = [Case('p%d' % i, gens.render_path(p, None, dollar=not nodollar[i]), [doc], f, []) for i, (doc, p, q, f) in enumerate(items)]
         go_w, mo_w = both_sides(whole + corpus)
         go_p = core.run_go(pre)
         # third retrievals: $Q on every value P selected
